@@ -280,6 +280,21 @@ Proof.
 Qed.
 
 (* ------------------------------------------------------------------ receive *)
+Lemma core_counters w w' :
+  Core w -> w_outs w' = w_outs w -> w_log w' = w_log w -> w_ctxs w' = w_ctxs w ->
+  w_logid w' = w_logid w -> child_le w w' -> Core w'.
+Proof.
+  intros [Hs Hb Hh Hi Ho Hoo Hoi] E1 E2 E3 E4 Hle. constructor.
+  - unfold LogSorted. rewrite E2. exact Hs.
+  - unfold LogBelow. rewrite E2, E4. exact Hb.
+  - unfold Held. rewrite E1, E2. exact Hh.
+  - intros c k m v Hc Hk. rewrite E3 in Hc. destruct (Hi c k m v Hc Hk) as [A B].
+    split; [eapply key_below_mono; eauto|]. rewrite E1. exact B.
+  - unfold CtxOut. rewrite E1, E3. exact Ho.
+  - unfold CtxOO. rewrite E3. exact Hoo.
+  - unfold CtxOI. rewrite E3. exact Hoi.
+Qed.
+
 Lemma receive_core w s a t d c :
   Fresh w -> Core w -> Core (fst (receive w s a t d c)).
 Proof.
@@ -287,10 +302,11 @@ Proof.
   destruct (check_ttl w t) as [[]|e|q]; cbn [fst]; try exact Hc.
   destruct (existsb _ _); cbn [fst]; [exact Hc|].
   destruct (next_child w) as [w1 key] eqn:En.
-  match goal with |- context [next_log_id w1 ?p] => set (parent := p) end.
-  unfold next_log_id. cbn zeta. cbn [fst].
   assert (Hle : child_le w w1) by (intros x; eapply child_mono_next; eauto).
   apply next_child_spec in En as (Hkey & Hb1 & _ & Ho1 & Hl1 & Hc1 & Hli1 & _).
+  destruct c; cbn [negb]; [|cbn [fst]; now apply (core_counters w w1)].
+  match goal with |- context [next_log_id w1 ?p] => set (parent := p) end.
+  unfold next_log_id. cbn zeta. cbn [fst].
   match goal with |- Core (with_log (with_outs _ (save_out _ ?o)) (save_tx _ ?x)) =>
     set (onew := o); set (tnew := x) end.
   cbn [w_outs w_log with_logid].
@@ -471,20 +487,6 @@ Proof.
   - intros c1 c2 k m v v' H1 H2. exact (Hoi c1 c2 k m v v' (Hsub _ H1) (Hsub _ H2)).
 Qed.
 
-Lemma core_counters w w' :
-  Core w -> w_outs w' = w_outs w -> w_log w' = w_log w -> w_ctxs w' = w_ctxs w ->
-  w_logid w' = w_logid w -> child_le w w' -> Core w'.
-Proof.
-  intros [Hs Hb Hh Hi Ho Hoo Hoi] E1 E2 E3 E4 Hle. constructor.
-  - unfold LogSorted. rewrite E2. exact Hs.
-  - unfold LogBelow. rewrite E2, E4. exact Hb.
-  - unfold Held. rewrite E1, E2. exact Hh.
-  - intros c k m v Hc Hk. rewrite E3 in Hc. destruct (Hi c k m v Hc Hk) as [A B].
-    split; [eapply key_below_mono; eauto|]. rewrite E1. exact B.
-  - unfold CtxOut. rewrite E1, E3. exact Ho.
-  - unfold CtxOO. rewrite E3. exact Hoo.
-  - unfold CtxOI. rewrite E3. exact Hoi.
-Qed.
 
 (** the context built by a selection over the current table, with freshly drawn change keys *)
 Lemma core_new_ctx w w1 slate p b chg amount fee late :
@@ -1355,6 +1357,7 @@ Proof.
   destruct (existsb _ (w_log w)) eqn:Ex; cbn [fst]; [exact Hu|].
   destruct (next_child w) as [w1 key] eqn:En.
   apply next_child_spec in En as (_ & _ & _ & _ & Hl1 & _).
+  destruct c; cbn [negb]; [|cbn [fst]; rewrite Hl1; exact Hu].
   unfold next_log_id. cbn zeta. cbn [fst w_log with_log with_outs with_logid]. rewrite Hl1.
   apply uniq_save_new; [exact Hu|]. right. right. intros o Ho (A & B & C). cbn in A, B, C.
   assert (existsb (fun t0 => optN_eqb (t_slate t0) (Some s)
